@@ -83,7 +83,11 @@ func offsetSamples(c offCase, out clip.Paths64, closed bool) []osample {
 				continue
 			}
 			nx, ny := dy/l, -dx/l
-			for _, t := range []float64{0.15, 0.5, 0.85} {
+			ts := []float64{0.15, 0.5, 0.85}
+			if n > 40 {
+				ts = []float64{0.5} // finely sampled curves: one station per edge keeps the exact judge affordable
+			}
+			for _, t := range ts {
 				qx, qy := float64(a.X)+t*dx, float64(a.Y)+t*dy
 				for _, sgn := range []float64{1, -1} {
 					if closed {
@@ -92,6 +96,14 @@ func offsetSamples(c offCase, out clip.Paths64, closed bool) []osample {
 						inside := evenOddInside(c.Paths, qx+sgn*0.01*nx, qy+sgn*0.01*ny)
 						if inside == grow {
 							continue
+						}
+					}
+					if grow {
+						// "contains no point farther than k·delta + tolerance from the input region": points
+						// of the complement beyond that distance (inside holes, outside the outline) —
+						// judged only if they lie in the solution and really are that far
+						for _, h := range []float64{k*d + tol + 1, 2*(k*d+tol) + 3} {
+							ss = append(ss, osample{qx + sgn*h*nx, qy + sgn*h*ny, 8, k*d + tol})
 						}
 					}
 					for _, f := range []float64{0.5, 0.97} {
@@ -246,6 +258,44 @@ func c05Check(o *Oracle, c offCase) (ok bool, kind, detail, resp string) {
 }
 
 // simple polygon sets with holes, either global orientation
+// a regular n-gon (positive orientation when Y is taken upwards as everywhere in the harness)
+func regularNgon(cx, cy int64, rad float64, n int, phase float64) clip.Path64 {
+	p := make(clip.Path64, 0, n)
+	for i := 0; i < n; i++ {
+		a := phase + 2*math.Pi*float64(i)/float64(n)
+		q := P{X: cx + int64(math.Round(rad*math.Cos(a))), Y: cy + int64(math.Round(rad*math.Sin(a)))}
+		if len(p) == 0 || p[len(p)-1] != q {
+			p = append(p, q)
+		}
+	}
+	return p
+}
+
+// near-circular polygons and plates with near-circular holes, with a delta just short of (or beyond)
+// the inradius: the regime in which "is there room left to contract" decisions are made
+func genRoundCase(r *Rng) offCase {
+	n := []int{5, 6, 8, 12, 24, 48, 64, 90}[r.Intn(8)]
+	rad := float64([]int{60, 100, 300, 1000}[r.Intn(4)])
+	inr := rad * math.Cos(math.Pi/float64(n))
+	f := []float64{0.8, 0.9, 0.96, 0.985, 1.15, 1.6}[r.Intn(6)]
+	ring := regularNgon(int64(r.Range(-50, 50)), int64(r.Range(-50, 50)), rad, n, float64(r.Intn(7))*0.1)
+	c := offCase{JT: r.Intn(4), ET: 0, Miter: []float64{2, 3}[r.Intn(2)], ArcTol: []float64{0, 0.25}[r.Intn(2)]}
+	if r.Bool() { // the polygon shrinks
+		c.Paths = clip.Paths64{ring}
+		c.Delta = -math.Round(f * inr)
+	} else { // a plate with a round hole grows: the hole shrinks
+		s := int64(3 * rad)
+		c.Paths = clip.Paths64{{{X: -s, Y: -s}, {X: s, Y: -s}, {X: s, Y: s}, {X: -s, Y: s}}, clip.ReversePath(ring)}
+		c.Delta = math.Round(f * inr)
+	}
+	if r.Bool() { // either global orientation
+		for i := range c.Paths {
+			c.Paths[i] = clip.ReversePath(c.Paths[i])
+		}
+	}
+	return c
+}
+
 func genSimpleSet(r *Rng) clip.Paths64 {
 	g := GenCfg{Grid: 10, Unit: 10, Ox: int64(r.Range(-5, 5)) * 10, Oy: int64(r.Range(-5, 5)) * 10}
 	var out clip.Paths64
@@ -351,8 +401,11 @@ func init() {
 			return nil
 		}
 	}
-	reg("c05-search", "C05", "c05", "simple polygon sets with holes (stars, nested rings, rectangles; both global orientations; repeated points) × delta from ±0.3 to beyond the inradius × 4 join types × miter limits 1-10 × arc tolerances; result canonical (C02 oracle); exact-rational samples: points within delta−tol of the input region along edge normals must be inside, every solution vertex / edge midpoint within k·delta+tol of the input region; mirrored for shrinking; |delta|<0.5 identity; judged by the Lean oracle with exact distances and winding numbers; non-trivial = ≥ 4 judged samples",
+	reg("c05-search", "C05", "c05", "simple polygon sets with holes (stars, nested rings, rectangles; both global orientations; repeated points; 6 % regular 5- to 90-gons and plates with such holes, radius 60-1000, |delta| at 0.8-1.6 of the inradius) × delta from ±0.3 to beyond the inradius × 4 join types × miter limits 1-10 × arc tolerances; result canonical (C02 oracle); exact-rational samples: points within delta−tol of the input region along edge normals must be inside, every solution vertex / edge midpoint within k·delta+tol of the input region, and points of the complement beyond that distance (inside holes too) outside the solution; mirrored for shrinking; |delta|<0.5 identity; judged by the Lean oracle with exact distances and winding numbers; non-trivial = ≥ 4 judged samples",
 		func(r *Rng) offCase {
+			if r.Chance(0.06) {
+				return genRoundCase(r)
+			}
 			var ps clip.Paths64
 			for tries := 0; tries < 20; tries++ {
 				ps = genSimpleSet(r)
@@ -364,9 +417,20 @@ func init() {
 			c.Delta = []float64{0.3, -0.3, 3, 5, 8, 12, -3, -5, -8, -20, 40}[r.Intn(11)]
 			return c
 		})
-	reg("c10-search", "C10", "c10", "open polylines (1, 2 or many points, duplicate and collinear points) × end types Butt / Square / Round / Joined × 4 join types × deltas ≥ 0.5; the stroke must contain every point within delta−tol of the polyline along segment normals and no solution vertex farther than k·delta+tol from it; Butt ends stop at the end points, Square / Round ends extend delta beyond them (cap samples); judged by the Lean oracle; non-trivial = ≥ 4 judged samples",
+	reg("c10-search", "C10", "c10", "open polylines (1, 2 or many points, duplicate and collinear points; 1 % finely sampled arcs / circles of 48-96 points stroked Joined with deltas up to 1.6 radii) × end types Butt / Square / Round / Joined × 4 join types × deltas ≥ 0.5; the stroke must contain every point within delta−tol of the polyline along segment normals and no solution vertex farther than k·delta+tol from it; Butt ends stop at the end points, Square / Round ends extend delta beyond them (cap samples); judged by the Lean oracle; non-trivial = ≥ 4 judged samples",
 		func(r *Rng) offCase {
 			g := GenCfg{Grid: 8, Unit: 10}
+			if r.Chance(0.012) {
+				// finely sampled arcs and circles stroked with a delta beyond their radius: runs of
+				// almost flat concave joins
+				n := []int{48, 72, 96}[r.Intn(3)]
+				rad := float64([]int{400, 1000, 1500}[r.Intn(3)])
+				ring := regularNgon(0, 0, rad, n, 0)
+				if r.Bool() {
+					ring = ring[:len(ring)*r.Range(5, 9)/10] // an arc
+				}
+				return offCase{Paths: clip.Paths64{ring}, JT: r.Intn(4), ET: 1, Miter: 2, ArcTol: 0.25, Delta: math.Round(rad * []float64{0.5, 1.3, 1.6}[r.Intn(3)])}
+			}
 			var p clip.Path64
 			switch r.Pick(1, 2, 6) {
 			case 0:
